@@ -182,16 +182,26 @@ class Tokenizer:
         indent = 0
         lines = {}
         start = end = self._tokens[-1].end
-        idx = -1
+        header: list[TokenInfo] | None = []  # blanks / a comment between the colon and the end of the header line
+        pending: list[TokenInfo] = []
         while True:
-            try:
-                tok = self._next_raw()
-            except StopIteration:
-                break
-            idx += 1
-            if (idx == 0) and tok.type == Token.NEWLINE:
-                continue
-            elif tok.type == Token.ENDMARKER:
+            if pending:
+                tok = pending.pop(0)
+            else:
+                try:
+                    tok = self._next_raw()
+                except StopIteration:
+                    break
+                if header is not None:
+                    if tok.type in (Token.WS, Token.COMMENT):
+                        header.append(tok)
+                        continue
+                    if tok.type == Token.NEWLINE:  # block form: what followed the colon is not part of the body
+                        header = None
+                        continue
+                    pending, header = [*header, tok], None  # one-line form: the rest of the line is the body
+                    continue
+            if tok.type == Token.ENDMARKER:
                 self._stack.append(tok)
                 self._with_macro = False
                 break
